@@ -180,36 +180,51 @@ func fileEffects(p *core.Program) []fileEffect {
 	return out
 }
 
-// allowedEffects is the frozen inventory of today's tree (root function -> callees).
+// allowedEffects is the inventory of today's tree, by role (the role functions
+// are found from the effects themselves, see findPipeline; the path rules
+// C07.R1-R3 then check every such site's operand).
 var allowedEffects = map[string]map[string]string{
-	"pkg/gengo.(*genfile).WriteToFile": {
+	"file writer": {
 		"os.OpenFile":    "opens <source dir>/<base>.<generator>.go for writing (C07.R1)",
 		"os.Create":      "fallback open of the same path (C07.R1)",
 		"go/format.Node": "prints the formatted AST into the opened file (C01.R1)",
 	},
-	"pkg/gengo.(*gengoCtx).pkgExecute": {
+	"per-package function": {
 		"os.RemoveAll": "removes stale <base>.* files of the processed package (C07.R2)",
 	},
-	"pkg/sumfile.(*File).Save": {
+	"sum file writer": {
 		"os.OpenFile":      "opens <module root>/gengo.sum for writing (C07.R3)",
 		"(*os.File).Write": "writes the sorted sums (C08.R5)",
 	},
 }
 
-// a1Report files one obligation per effect site; unlisted sites are violations.
-func a1Report(p *core.Program, r *core.Report, rule string) []fileEffect {
+// a1Report files one obligation per effect site; sites outside the role
+// functions (and their inlined private helpers), or of an unlisted kind, are violations.
+func a1Report(p *core.Program, r *core.Report, rule string, pl *pipeline) []fileEffect {
 	effs := fileEffects(p)
 	seen := map[string]int{}
+	roleOf := func(f *core.Func) string {
+		u := unitRoot(p, f)
+		switch {
+		case pl.write.Has(u):
+			return "file writer"
+		case pl.pkgExec.Has(u):
+			return "per-package function"
+		case pl.save.Has(u):
+			return "sum file writer"
+		}
+		return ""
+	}
 	for _, e := range effs {
-		root := e.In.Root().QName()
+		role := roleOf(e.In)
 		construct := "file effect " + e.Callee + " (" + e.Kind + ")"
-		seen[root+"|"+e.Callee]++
-		if seen[root+"|"+e.Callee] > 1 {
-			r.Bad(rule, e.In, construct+" (additional site)", e.Call.Pos(), "the inventory has one `"+e.Callee+"` site in this function; a second one is an unreviewed file-system effect")
+		seen[role+"|"+e.Callee]++
+		if role != "" && seen[role+"|"+e.Callee] > 1 {
+			r.Bad(rule, e.In, construct+" (additional site)", e.Call.Pos(), "the inventory has one `"+e.Callee+"` site in the "+role+"; a second one is an unreviewed file-system effect")
 			continue
 		}
-		if why, ok := allowedEffects[root][e.Callee]; ok {
-			r.OK(rule, e.In, construct, e.Call.Pos(), "inventoried: "+why)
+		if why, ok := allowedEffects[role][e.Callee]; ok {
+			r.OK(rule, e.In, construct, e.Call.Pos(), "inventoried ("+role+"): "+why)
 		} else {
 			r.Bad(rule, e.In, construct, e.Call.Pos(), "a file-system effect outside the inventory of gengo's own output paths: `"+core.ExprStr(e.Call)+"` can create, change or delete a file that is not <base>.<generator>.go / a stale <base>.* file / gengo.sum")
 		}
